@@ -791,7 +791,9 @@ Qed.
 
 Theorem update_pointers_spec : forall g0 g,
   Raw g0 -> Linked g0 -> update_pointers g0 = (g, ROk) ->
-  LinksExact g /\ Linked g /\ UnivOK g /\ coll g KCell = coll g0 KCell.
+  LinksExact g /\ Linked g /\ UnivOK g /\ coll g KCell = coll g0 KCell /\
+  (forall x, ~ In x (coll g0 KCell) ->
+     c_geom (cellf g x) = c_geom (cellf g0 x) /\ forall isc, lst isc (cellf g x) = lst isc (cellf g0 x)).
 Proof.
   intros g0 g [ND RA] LK H. unfold update_pointers in H.
   destruct (andb (ran g0) _); [discriminate|].
@@ -832,13 +834,28 @@ Proof.
   { rewrite C3 by discriminate. exact CC2. }
   assert (CC : coll g KCell = coll g0 KCell).
   { destruct Q37 as [_ (A & _)]. rewrite A. exact CC3. }
-  split; [|split; [|split]].
+  split; [|split; [|split; [|split]]].
   - intros c Hc. rewrite CC in Hc.
     eapply cell_exact_same_lk; [apply Q37|]. eapply cell_exact_same_lk; [exact S3|].
     eapply cell_exact_same_lk; [apply Q2|]. apply X1. destruct Ca as (_ & B & _). rewrite B. exact Hc.
   - eapply Linked_frameG; [apply Q37 | exact L3].
   - intros c Hc. rewrite CC in Hc. eapply has_univ_frameG; [apply Q37|]. apply H3. rewrite CC2. exact Hc.
   - exact CC.
+  - intros x Hx.
+    assert (SL : same_lk g1 g).
+    { eapply same_lk_trans; [apply Q2|]. eapply same_lk_trans; [exact S3 | apply Q37]. }
+    destruct (SL x) as [E1' E2']. rewrite E1'. rewrite O1 by exact Hx. split; [reflexivity|].
+    intro isc. rewrite E2'. rewrite O1 by exact Hx. reflexivity.
+Qed.
+
+Lemma read_then_links_all : forall g0 g,
+  Raw g0 -> Linked g0 -> update_pointers g0 = (g, ROk) ->
+  (forall x, ~ In x (coll g0 KCell) -> cell_ok (cellf g0 x)) -> LinksAll g.
+Proof.
+  intros g0 g R L H NM. destruct (update_pointers_spec g0 g R L H) as (X & _ & _ & CC & O).
+  intro c. destruct (in_dec Nat.eq_dec c (coll g0 KCell)) as [Hc|Hc].
+  - apply cell_exact_ok. apply X. rewrite CC. exact Hc.
+  - destruct (O c Hc) as [E1' E2']. intros h Hh isc. rewrite E1' in Hh. rewrite E2'. apply (NM c Hc h Hh isc).
 Qed.
 
 (* ================================================================ members stay linked; cells stay in a universe *)
@@ -1255,7 +1272,10 @@ Proof.
   rewrite E in R. simpl in R. subst. reflexivity.
 Qed.
 Lemma wit_props : LinksExact wit /\ Linked wit /\ UnivOK wit /\ coll wit KCell = coll wit_raw KCell.
-Proof. apply update_pointers_spec; [apply wit_raw_Raw | apply wit_raw_Linked | apply wit_read_ok]. Qed.
+Proof.
+  destruct (update_pointers_spec wit_raw wit wit_raw_Raw wit_raw_Linked wit_read_ok) as (A & B & C & D & _).
+  auto.
+Qed.
 
 Lemma wit_LinksAll : LinksAll wit.
 Proof.
@@ -1491,7 +1511,7 @@ Lemma set_number_spec : forall g k o n,
 Proof.
   intros g k o n. unfold set_number. destruct (n <=? 0)%Z eqn:En.
   - simpl. split; [apply same_but_num_refl|]. split; [reflexivity|]. split; [discriminate | reflexivity].
-  - destruct (andb _ _); simpl.
+  - destruct (andb _ _); cbv zeta; cbn [fst snd].
     + split; [apply same_but_num_refl|]. split; [reflexivity|]. split; [discriminate | reflexivity].
     + split; [repeat split; reflexivity|]. split; [|split].
       * intros k' o' H. rewrite num_set_num. destruct (kind_eqb k' k) eqn:Ek; [|reflexivity].
@@ -1546,4 +1566,96 @@ Proof.
       destruct (Nat.eq_dec u o) as [->|Nu]; [|rewrite O by (right; exact Nu); reflexivity].
       rewrite Kn. cbn [renum_safe] in S. apply negb_true_iff in S. rewrite S. apply Z.eqb_neq. lia.
     + rewrite K2 by exact E. reflexivity.
+Qed.
+
+Theorem run_renum : forall ops g, all_safe renum_safe g ops = true -> NumInj g -> Linked g ->
+  NumInj (run g ops) /\ Linked (run g ops) /\ same_but_num g (run g ops) /\ resolve (run g ops) = resolve g.
+Proof.
+  induction ops as [|o ops IH]; intros g S N L; simpl in *.
+  - split; [exact N|]. split; [exact L|]. split; [apply same_but_num_refl | reflexivity].
+  - apply andb_true_iff in S. destruct S as [S1 S2].
+    destruct (step_renum g o S1 N L) as (N1 & L1 & B1 & R1).
+    destruct (IH _ S2 N1 L1) as (N2 & L2 & B2 & R2).
+    split; [exact N2|]. split; [exact L2|]. split; [eapply same_but_num_trans; eauto | congruence].
+Qed.
+
+(* ---- a swap through a temporary number is accepted and swaps *)
+Lemma set_number_accept : forall g k o n,
+  (0 < n)%Z -> ~ In n (map (num g k) (coll g k)) -> set_number g k o n = (set_num g k o n, ROk).
+Proof.
+  intros g k o n P H. unfold set_number. destruct (n <=? 0)%Z eqn:E; [apply Z.leb_le in E; lia|].
+  destruct (mem_Z n (map (num g k) (coll g k))) eqn:M; [apply mem_Z_In in M; contradiction|].
+  rewrite andb_false_r. reflexivity.
+Qed.
+
+Lemma NoDup_map_inj : forall (f : oid -> Z) l x y, NoDup (map f l) -> In x l -> In y l -> f x = f y -> x = y.
+Proof.
+  intros f l. induction l as [|z l IH]; intros x y N Hx Hy E; [destruct Hx|].
+  simpl in N. inversion N as [|? ? Nz Nl]; subst. destruct Hx as [->|Hx], Hy as [->|Hy].
+  - reflexivity.
+  - exfalso. apply Nz. rewrite E. apply in_map. exact Hy.
+  - exfalso. apply Nz. rewrite <- E. apply in_map. exact Hx.
+  - apply IH; assumption.
+Qed.
+
+Theorem swap_through_temporary : forall g k a b tmp,
+  NumInj g -> In a (coll g k) -> In b (coll g k) -> a <> b ->
+  (0 < num g k a)%Z -> (0 < num g k b)%Z -> (0 < tmp)%Z -> ~ In tmp (map (num g k) (coll g k)) ->
+  let ops := [SetNum k a tmp; SetNum k b (num g k a); SetNum k a (num g k b)] in
+  let g1 := fst (step g (SetNum k a tmp)) in
+  let g2 := fst (step g1 (SetNum k b (num g k a))) in
+  snd (step g (SetNum k a tmp)) = ROk /\ snd (step g1 (SetNum k b (num g k a))) = ROk /\
+  snd (step g2 (SetNum k a (num g k b))) = ROk /\
+  num (run g ops) k a = num g k b /\ num (run g ops) k b = num g k a /\
+  (forall o, o <> a -> o <> b -> num (run g ops) k o = num g k o) /\
+  (forall k' o, k' <> k -> num (run g ops) k' o = num g k' o).
+Proof.
+  intros g k a b tmp N Ha Hb Nab Pa Pb Pt Ht. cbv zeta. set (f := num g k) in *.
+  assert (E1 : set_number g k a tmp = (set_num g k a tmp, ROk)) by (apply set_number_accept; assumption).
+  set (g1 := set_num g k a tmp).
+  assert (F1 : num g1 k = upd f a tmp) by (unfold g1; rewrite num_set_num, kind_eqb_refl; reflexivity).
+  assert (H2 : ~ In (f a) (map (num g1 k) (coll g1 k))).
+  { rewrite F1. change (coll g1 k) with (coll g k). intro K. apply map_upd_In in K.
+    destruct K as [[A _]|[y (A & B & C)]].
+    - apply Ht. rewrite <- A. apply in_map. exact Ha.
+    - apply B. symmetry. apply (NoDup_map_inj f (coll g k)); [apply N | exact Ha | exact A | exact C]. }
+  assert (E2 : set_number g1 k b (f a) = (set_num g1 k b (f a), ROk)) by (apply set_number_accept; assumption).
+  set (g2 := set_num g1 k b (f a)).
+  assert (F2 : num g2 k = upd (upd f a tmp) b (f a)).
+  { unfold g2. rewrite num_set_num, kind_eqb_refl, F1. reflexivity. }
+  assert (H3 : ~ In (f b) (map (num g2 k) (coll g2 k))).
+  { rewrite F2. change (coll g2 k) with (coll g k). intro K. apply map_upd_In in K.
+    destruct K as [[A _]|[y (A & B & C)]].
+    - apply Nab. apply (NoDup_map_inj f (coll g k)); [apply N | exact Ha | exact Hb | symmetry; exact A].
+    - unfold upd in C. destruct (Nat.eqb y a) eqn:Ey.
+      + apply Ht. rewrite <- C. apply in_map. exact Hb.
+      + apply B. symmetry. apply (NoDup_map_inj f (coll g k)); [apply N | exact Hb | exact A | exact C]. }
+  assert (E3 : set_number g2 k a (f b) = (set_num g2 k a (f b), ROk)) by (apply set_number_accept; assumption).
+  cbn [run step]. rewrite E1. cbn [fst snd]. fold g1. rewrite E2. cbn [fst snd]. fold g2. rewrite E3. cbn [fst snd].
+  split; [reflexivity|]. split; [reflexivity|]. split; [reflexivity|].
+  assert (F3 : num (set_num g2 k a (f b)) k = upd (upd (upd f a tmp) b (f a)) a (f b)).
+  { rewrite num_set_num, kind_eqb_refl, F2. reflexivity. }
+  split; [rewrite F3; apply upd_same|]. split; [|split].
+  - rewrite F3. rewrite upd_other by (intro; subst; contradiction). apply upd_same.
+  - intros o Na Nb. rewrite F3. rewrite !upd_other by assumption. reflexivity.
+  - intros k' o Nk. unfold g2, g1. rewrite !num_set_num.
+    destruct (kind_eqb k' k) eqn:Ek; [apply kind_eqb_eq in Ek; contradiction | reflexivity].
+Qed.
+
+(* the witness satisfies the hypotheses of the C04 theorems *)
+Lemma wit_c04 : Resolved wit /\ NumInj wit /\ Linked wit.
+Proof.
+  split; [|split; [|apply wit_props]].
+  - intros c Hc h Hh. assert (K : c = 0%nat \/ c = 1%nat) by (vm_compute in Hc; intuition).
+    destruct K as [-> | ->]; vm_compute in Hh; inversion Hh; subst; simpl; auto.
+  - intro k. destruct k; vm_compute; repeat constructor; simpl; intuition; discriminate.
+Qed.
+Definition wit_renum_ops : list op :=
+  [SetNum KSurf 0%nat 50; SetNum KSurf 1%nat 1; SetNum KSurf 0%nat 2; SetNum KCell 0%nat 7; SetNum KMat 1%nat 9].
+Lemma wit_renum_ops_ok :
+  all_safe renum_safe wit wit_renum_ops = true /\
+  written_refs wit <> written_refs (run wit wit_renum_ops) /\
+  resolve (run wit wit_renum_ops) = resolve wit.
+Proof.
+  split; [vm_compute; reflexivity|]. split; [vm_compute; discriminate | vm_compute; reflexivity].
 Qed.
